@@ -142,7 +142,7 @@ def interpret(case, ctx):
 
             cls, opts = ring.strategy(eff_ks)
             try:
-                refl = ref.natural_endpoints(ring.ref_ring, ring.topology, cls, opts, ring.key_token(rk))
+                refl = ref.full_endpoints(ring.ref_ring, ring.topology, cls, opts, ring.key_token(rk))
             except ref.ReferenceDisagreement as e:
                 raise HarnessError("reference self-check failed: %s" % e)
             di = [ring.index(h) for h in drv_replicas]
